@@ -30,6 +30,9 @@ def base_streams(rng):
     t4 = bytes(rng.randrange(256) for _ in range(40))
     out.append([(0x7E8, f) for f in ic.segment(24, t4, b"\x00" * 3)] +
                [(0x7E8, f) for f in ic.segment(24, bytes(range(12)), b"\xcc" * 10)])
+    # announced lengths which need the top bits of the 12-bit length field (64-byte frames keep the stream short)
+    t5 = bytes(rng.randrange(256) for _ in range(rng.choice([2048, 2049, 3000, 4095])))
+    out.append([(0x7E0, b"\x02\x3e\x00")] + [(0x7E8, f) for f in ic.segment(64, t5)])
     return out
 
 
@@ -113,9 +116,9 @@ def main(argv=None):
             singles = []
             for pos in range(len(stream)):
                 singles.extend((lab, pos, s) for lab, s in faults_at(stream, pos, quick, rng))
-            tail_t = bytes(rng.randrange(256) for _ in range(17))
+            tail_t = bytes(rng.randrange(256) for _ in range(rng.choice([17, 17, 2050])))
             tail_id = 0x7E8
-            tail = [(tail_id, f) for f in ic.segment(8, tail_t)]
+            tail = [(tail_id, f) for f in ic.segment(8 if len(tail_t) < 100 else 64, tail_t)]
             for lab, pos, s in singles:
                 cases.append((s + tail, tail_t, len(tail), f"single {lab}@{pos}"))
             # double faults: a second fault applied to a singly faulted stream
@@ -129,11 +132,14 @@ def main(argv=None):
                 cases.append((s2 + tail, tail_t, len(tail), f"double {lab}@{pos}+{lab2}@{p2}"))
         for _ in range(400 if quick else 10000):
             cases.append((random_frames(rng, rng.randint(1, 40)), None, 0, "random"))
+    TX = [0x700, 0x708]
     wires = [ic.wire_case(RX, [], 0, 0, fr, False) for fr, *_ in cases]
-    mres = None
+    wires_a = [ic.wire_case(RX, TX, 8, 0xAA, fr, True) for fr, *_ in cases]
+    mres = mres_a = None
     if ck.model_available():
         try:
-            mres = common.run_model_ocaml(wires, chunk=50)
+            mres = common.run_model_ocaml(wires + wires_a, chunk=50)
+            mres, mres_a = mres[:len(cases)], mres[len(cases):]
             small = [i for i, c in enumerate(cases) if sum(len(d) for _, d in c[0]) < 400]
             idx = sorted(rng.sample(small, min(len(small), 60 if quick else 300)))
             cres = common.run_model_coq([wires[i] for i in idx], tag="c13", chunk=20)
@@ -142,27 +148,56 @@ def main(argv=None):
             ck.coverage["evaluated_in_coq"] = len(idx)
         except Exception as e:  # noqa
             ck.note_broken(f"model execution failed: {e}")
-            mres = None
+            mres = mres_a = None
     else:
         ck.note_broken("model not built (Run.vo / extracted driver missing)")
     for i, (frames, tail_t, tail_len, label) in enumerate(cases):
         ck.count([(f, bytes(d)) for f, d in frames])
         ck.hist("fault", label.split(" ")[0] + " " + (label.split(" ")[1].split("@")[0].rstrip("0123456789abcdef") if " " in label and not label.startswith("double") else ""))
-        trace, err = ic.run_impl(RX, [], 0, 0, frames, False)
-        rep = {"rx": RX, "frames": [[f, bytes(d).hex()] for f, d in frames], "label": label}
-        bad = oracle(RX, frames, trace, err, tail_t, tail_len)
-        if bad:
-            ck.violation(bad, rep)
-            continue
-        if mres is not None and trace != mres[i]:
-            st = next((k for k, (a, b) in enumerate(zip(trace, mres[i])) if a != b), None)
-            rep.update({"step": st, "impl": trace[st] if st is not None else None,
-                        "model": mres[i][st] if st is not None else None,
-                        "broken": "correspondence IsoTp.run_case vs decode_rx_frame"})
-            ck.violation(f"implementation and model disagree at frame {st}; provenance oracle passed", rep,
-                         found_input=False)
+        for active, mr in ((False, mres), (True, mres_a)):
+            trace, err = ic.run_impl(RX, TX if active else [], 8 if active else 0, 0xAA if active else 0, frames, active)
+            rep = {"rx": RX, "frames": [[f, bytes(d).hex()] for f, d in frames], "label": label,
+                   "decoder": "active" if active else "passive"}
+            bad = oracle(RX, frames, trace, err, tail_t, tail_len)
+            if bad:
+                ck.violation(bad + (" (active decoder)" if active else ""), rep)
+                break
+            if mr is not None and trace != mr[i]:
+                st = next((k for k, (a, b) in enumerate(zip(trace, mr[i])) if a != b), None)
+                rep.update({"step": st, "impl": trace[st] if st is not None else None,
+                            "model": mr[i][st] if st is not None else None,
+                            "broken": "correspondence IsoTp.run_case vs decode_rx_frame"})
+                ck.violation(f"implementation and model disagree at frame {st}; provenance oracle passed", rep,
+                             found_input=False)
+                break
         if i % 997 == 0:
             ck.sample({"label": label, "frames": [[f, bytes(d).hex()] for f, d in frames[:8]]})
+    # the snoop tool end to end on lossy traffic of the shipped ECU: it never raises (responses without a request,
+    # requests the database cannot decode, truncated and corrupted frames)
+    if not ck.replay:
+        SR, ST = 123, 456
+        nsn = 0
+        rq = bytes([0x10, 0x00])
+        streams = []
+        for _ in range(8 if quick else 80):
+            good = [(SR, f) for f in ic.segment(8, bytes([rng.choice([0x10, 0x3E, 0xAB, 0xBA])]) + bytes(rng.randrange(256) for _ in range(rng.choice([0, 1, 2, 9]))))]
+            good += [(ST, f) for f in ic.segment(8, bytes([rng.choice([0x50, 0x7F, 0xEB, 0xFA])]) + bytes(rng.randrange(256) for _ in range(rng.choice([0, 1, 2, 20]))))]
+            good = good * 2
+            pos = rng.randrange(len(good))
+            lab, st = rng.choice(faults_at(good, pos, True, rng))
+            streams.append((f"snoop {lab}@{pos}", st))
+            streams.append(("snoop response first", good[len(good) // 2 - 1:]))
+        for lab, st in streams:
+            st = [(f, d) for f, d in st if len(d) > 0]  # the log syntax cannot express empty frames
+            text = ic.log_text(st, lambda k, d: 1)
+            got, out, err = ic.run_snoop(text, None, None)
+            nsn += 1
+            ck.count(("snoop", text))
+            if err:
+                ck.violation(f"odxtools snoop on a candump log ({lab}) raised {err}",
+                             {"snoop": True, "log": text, "label": lab})
+                break
+        ck.coverage["snoop_runs"] = nsn
     ck.assumptions = ["frames are byte strings of any length (including empty) on arbitrary ids",
                       "dropped consecutive frames can make a later frame with the wrapped sequence number "
                       "count as in-sequence: this is inherent to the 4-bit counter and allowed by the property text"]
